@@ -605,6 +605,15 @@ impl<'tcx> Ex<'tcx> {
         }
         let body = tcx.optimized_mir(did);
         o.push(("mir".into(), self.body(did, body)));
+        // promoted constants (`&(0.0..=1.0)`, `&[..]`): small bodies the rules can evaluate
+        let proms = tcx.promoted_mir(did);
+        if !proms.is_empty() {
+            let mut ps = vec![];
+            for pb in proms.iter() {
+                ps.push(self.body(did, pb));
+            }
+            o.push(("promoted".into(), J::A(ps)));
+        }
         J::O(o)
     }
 
@@ -887,6 +896,13 @@ impl<'tcx> Ex<'tcx> {
                 }
             }
             _ => {}
+        }
+        if let Const::Unevaluated(uv, _) = c {
+            if let Some(p) = uv.promoted {
+                if uv.def == did {
+                    o.push(("promoted".into(), n(p.as_usize())));
+                }
+            }
         }
         o.push(("text".into(), s(rustc_middle::ty::print::with_no_trimmed_paths!(format!("{}", c)))));
         J::A(vec![s("const"), J::O(o)])
